@@ -109,3 +109,1106 @@ def visible_names(info, mult):
 def control_of(info):
     ctl = [p for p in info.parameters.kernel_parameters if p.is_control]
     return ctl[0] if ctl else None
+
+
+# --------------------------------------------------------------------------
+# MESH: one symbolic parameter set in every naming scheme
+
+IFACES = ["call_kernel", "DirectModel", "helper", "sasview", "bumps"]
+DATAMIXIN = ("DirectModel", "helper", "bumps")     # background added after the kernel
+
+
+def _pref(p, k):
+    """A generic concrete value for parameter *p* inside its limits."""
+    lo, hi = float(p.limits[0]), float(p.limits[1])
+    d = float(p.default)
+    if p.name.endswith("_M0"):
+        x = 1.5 + 0.25 * (k % 5)
+    elif p.name == "background":
+        x = 0.0625
+    elif d == 0.0:
+        x = 0.11 + 0.01 * (k % 7)
+    else:
+        x = d * (1.0 + 0.004 * (k % 9))
+    return C._clip_inside(x, lo, hi, d)
+
+
+def build_pars(info, mult, disp, nmag=1, strict=False):
+    """(direct-scheme dict, prefs {symbol name: float}, assumptions, sasview model class)"""
+    names, m0 = visible_names(info, mult)
+    ctl = control_of(info)
+    callp = dict((p.name, p) for p in info.parameters.call_parameters)
+    slds = [p.name for p in info.parameters.call_parameters if p.type == "sld" and p.name in names]
+    keep_mag = set(slds[:nmag])
+    direct, prefs, A = {}, {}, []
+    for k, name in enumerate(names):
+        p = callp[name]
+        if ctl is not None and name == ctl.name:
+            continue
+        if C.is_structural(p):
+            continue
+        if p.type == "magnetic" and name.rsplit("_", 1)[-1] in ("M0", "mtheta", "mphi") \
+                and name.rsplit("_", 1)[0] not in keep_mag:
+            continue
+        s = symx.real("v." + name)
+        direct[name] = s
+        prefs["v." + name] = _pref(p, k)
+        if p.polydisperse:
+            lo, hi = p.limits
+            if np.isfinite(lo):
+                A.append(s.t >= symx.rat(lo))
+            if np.isfinite(hi):
+                A.append(s.t <= symx.rat(hi))
+    if ctl is not None:
+        direct[ctl.name] = float(mult)
+    for name, n, kind in disp:
+        p = callp[name]
+        direct[name + "_pd"] = symx.real("pd." + name)
+        direct[name + "_pd_n"] = n
+        direct[name + "_pd_nsigma"] = symx.real("ns." + name)
+        direct[name + "_pd_type"] = kind
+        prefs["pd." + name] = 0.15 if p.relative_pd else 7.5
+        prefs["ns." + name] = 1.5 if kind == "rectangle" else 2.5   # rectangle: support is sqrt(3) sigma
+        A += [direct[name + "_pd"].t >= 0, direct[name + "_pd_nsigma"].t > 0]
+        if strict and n > 1:
+            # non-degenerate distributions only (width and centre strictly positive)
+            A += [direct[name + "_pd"].t > 0] + ([direct[name].t > 0] if p.relative_pd else [])
+    return direct, prefs, A, m0
+
+
+def run_interfaces(info, mult, dim, direct, cut, model, only=None, patch_build=True):
+    """The five interfaces on one parameter set (proxies or floats).  *model*:
+    kernel model handed to the interfaces that take one."""
+    qv = Q1 if dim == "1d" else Q2
+    ctl = control_of(info)
+    out = {}
+
+    def want(name):
+        return only is None or name in only
+    if want("call_kernel"):
+        k = model.make_kernel(qv)
+        out["call_kernel"] = DM.call_kernel(k, dict(direct), cutoff=cut)
+    mk = (lambda: D.Data1D(x=qv[0])) if dim == "1d" else (lambda: D.Data2D(x=qv[0], y=qv[1]))
+    if want("DirectModel"):
+        out["DirectModel"] = DM.DirectModel(mk(), model, cutoff=cut)(**direct)
+    if want("helper"):
+        saved = core.build_model
+        if patch_build:
+            core.build_model = lambda mi, *a, **kw: model
+        try:
+            out["helper"] = (DM.Iq(info.id, qv[0], **direct) if dim == "1d"
+                             else DM.Iqxy(info.id, qv[0], qv[1], **direct))
+        finally:
+            core.build_model = saved
+    if want("sasview"):
+        m = model_class(info)(mult)
+        m._model = model
+        for key, v in direct.items():
+            if ctl is not None and key == ctl.name:
+                continue
+            m.setParam(sasview_name(key), v)
+        m.cutoff = cut
+        out["sasview"] = m.evalDistribution(qv[0] if dim == "1d" else [qv[0], qv[1]])
+    if want("bumps"):
+        bm = BM.Model(model, **direct)
+        out["bumps"] = BM.Experiment(mk(), bm, cutoff=cut).theory()
+    return out
+
+
+def real_interfaces(name, mult, dim, conc, cutoff, only=None):
+    """Replay: plain floats, real distributions, real compiled kernel."""
+    uninstall()
+    try:
+        info = core.load_model_info(name)
+        model = C.real_model(name)
+        out = run_interfaces(info, mult, dim, conc, cutoff, model, only=only, patch_build=False)
+        return dict((k, np.array(v, dtype=float)) for k, v in out.items())
+    finally:
+        install()
+
+
+def _zero_background(view):
+    v = dict(view)
+    v["values"] = list(view["values"])
+    v["values"][1] = 0.0
+    return v
+
+
+def mesh_name(cfg):
+    _kind, name, dim, mult, disp, tag = cfg
+    return "mesh/%s/%s/m=%s/%s" % (name, dim, mult, tag)
+
+
+def finding_class(info, dim, disp, iface):
+    callp = dict((p.name, p) for p in info.parameters.call_parameters)
+    if dim == "1d" and iface == "sasview" and any(callp[n].type == "orientation" for n, _n, _k in disp):
+        return "orientation-dispersity-in-1d"
+    return "kernel-arguments"
+
+
+def mesh_unit(cfg):
+    _kind, name, dim, mult, disp, tag = cfg
+    u = Unit(mesh_name(cfg), timeout_ms=60000)
+    u.functions(*FUNCS)
+    install()
+    info = core.load_model_info(name)
+    direct, prefs, A, _m0 = build_pars(info, mult, disp, strict=(dim == "1d" and tag.startswith("orientation")))
+    cut = symx.real("cutoff")
+    prefs["cutoff"] = 0.03     # trims the tails of a 5-point gaussian
+    A = A + [cut.t >= 0] + I.INF_AXIOMS
+
+    def fn():
+        rec = []
+        model = C.stub_build(info, [0], rec)
+        out = run_interfaces(info, mult, dim, direct, cut, model)
+        return rec, out
+
+    ex = symx.Explorer(timeout_ms=20000, max_paths=600)
+    paths = ex.explore(fn, A)
+    u.absorb(ex, paths)
+    u.reachable(u.r["unit"], A)
+    u.sample({"config": u.r["unit"], "direct_scheme_keys": sorted(direct)[:12],
+              "sasview_scheme_keys": sorted(sasview_name(k) for k in direct)[:12]})
+    consts = dict((n, z3.Real(n)) for n in prefs)
+    if tag == "defaults" or tag.startswith("pd:"):
+        _validate_encoding(u, cfg, info, direct, prefs, paths)
+
+    for pi, p in enumerate(paths):
+        if p.cut:
+            continue
+        H = p.constraints()
+        if p.exc is not None:
+            tb = "".join(traceback.format_exception(type(p.exc), p.exc, p.exc.__traceback__))[-900:]
+            u.prove("no-exception", z3.BoolVal(False), H,
+                    _mesh_handler(u, cfg, info, direct, prefs, consts, H, None, "exception", tb))
+            continue
+        rec, out = p.result
+        if len(rec) != len(IFACES):
+            u.error("expected %d kernel calls, saw %d" % (len(IFACES), len(rec)))
+            continue
+        calls = dict(zip(IFACES, rec))
+        base = calls["call_kernel"]
+        vb = C.kernel_view(info, base.details, base.values, True)
+        if info.structure_factor:
+            sv = calls["sasview"].values
+            u.prove("structure-factor-hidden-scale-1-background-0",
+                    z3.And(C._eq_terms(sv[0], 1.0), C._eq_terms(sv[1], 0.0)), H,
+                    _mesh_handler(u, cfg, info, direct, prefs, consts, H, "sasview", "hidden", ""))
+        for iface in IFACES[1:]:
+            call = calls[iface]
+            v = C.kernel_view(info, call.details, call.values, True)
+            want = _zero_background(vb) if iface in DATAMIXIN else vb
+            phi, bad = C.views_equal(v, want)
+            wantcut = symx.rat(HELPER_CUTOFF) if iface == "helper" else cut.t
+            conj = [phi, z3.BoolVal(bool(call.magnetic) == bool(base.magnetic))]
+            if any(n > 1 for _nm, n, _kd in disp):
+                # without a distribution every weight is 1 and the cutoff is unobservable
+                conj.append(term(call.cutoff) == wantcut)
+            u.prove("same-kernel-call[%s]" % iface, z3.And(*conj), H,
+                    _mesh_handler(u, cfg, info, direct, prefs, consts, H, iface, "args", "; ".join(bad)),
+                    sample=(pi == 0 and iface == "sasview"))
+            o, b = list(out[iface]), list(out["call_kernel"])
+            same = z3.And(*[C._eq_terms(x, y) for x, y in zip(o, b)]) if len(o) == len(b) else z3.BoolVal(False)
+            if iface == "helper":
+                same = z3.Implies(cut.t == wantcut, same)
+            u.prove("same-theory[%s]" % iface, same, H,
+                    _mesh_handler(u, cfg, info, direct, prefs, consts, H, iface, "theory", ""))
+    return u.r
+
+
+class _LeafFuncs(object):
+    """UF name -> the real distribution leaf (translator validation)."""
+
+    def __getitem__(self, name):
+        if not name.startswith(("pdx.", "pdw.")):
+            raise KeyError(name)
+        which, kind, n, k = name.split(".")
+        n, k = int(n), int(k)
+        cls = W.DISTRIBUTIONS[kind]
+        leaf = I._SAVED_LEAVES[cls]
+
+        def f(ns, c, s, lb, ub):
+            obj = cls(n, 0.0, ns)
+            x, w = leaf(obj, c, s, lb, ub)
+            if len(x) != n:
+                raise ValueError("distribution truncated by the limits")
+            return float((x if which == "pdx" else w)[k])
+        return f
+
+
+def _validate_encoding(u, cfg, info, direct, prefs, paths):
+    """Translator validation: the value vector the symbolic run hands to the
+    kernel, evaluated at concrete inputs (UF leaves -> the real distribution
+    code), against the real get_mesh + make_kernel_args on floats."""
+    _kind, name, dim, mult, disp, tag = cfg
+    env = dict(prefs)
+    env.update({"+inf": float("inf"), "-inf": float("-inf"), "L0.tw": 1.0, "L0.sv": 1.0, "L0.fv": 1.0})
+    funcs = _LeafFuncs()
+    chosen = None
+    for p in paths:
+        if p.cut or p.exc is not None:
+            continue
+        try:
+            if all(bool(symx.evalf(c, env, funcs)) for c in p.pc
+                   if not any(n.startswith("L0.") for n in symx.consts_of([c]))):
+                chosen = p
+                break
+        except Exception:
+            continue
+    if chosen is None:
+        u.note("encoding validation: no path matches the preferred inputs")
+        return
+    rec, _out = chosen.result
+    try:
+        got = [float(symx.evalf(term(v), env, funcs)) if symx.is_sym(v) else float(v) for v in rec[0].values]
+    except Exception as e:
+        u.note("encoding validation skipped: %s" % e)
+        return
+    conc = _conc_pars(direct, env)
+    uninstall()
+    try:
+        kern = C.real_model(name).make_kernel(Q1 if dim == "1d" else Q2)
+        mesh = DM.get_mesh(info, conc, dim=kern.dim)
+        _cd, vals, _mag = details.make_kernel_args(kern, mesh)
+    finally:
+        install()
+    if len(vals) != len(got):
+        u.error("encoding validation: %d values, real code %d" % (len(got), len(vals)))
+        return
+    for i, (g, w) in enumerate(zip(got, vals)):
+        u.check_close("%s values[%d]" % (u.r["unit"], i), g, float(w), rtol=1e-9, atol=1e-12)
+
+
+def _concretise(m, H, prefs, consts, use_prefs=True):
+    """Concrete inputs: the preferred generic value of every symbol, except the
+    symbols that a path condition over inputs alone pins down differently."""
+    if not use_prefs:
+        return dict((n, float(symx.model_float(m, c))) for n, c in consts.items())
+    env = dict(prefs)
+    for _round in range(2):
+        dirty = False
+        for h in H:
+            syms = symx.consts_of([h])
+            if not syms or not set(syms) <= set(env) or symx.apps_of([h]):
+                continue
+            try:
+                ok = bool(symx.evalf(h, env))
+            except Exception:
+                ok = False
+            if not ok:
+                dirty = True
+                for n in syms:
+                    env[n] = float(symx.model_float(m, consts[n]))
+        if not dirty:
+            break
+    return env
+
+
+def _conc_pars(direct, env):
+    out = {}
+    for k, v in direct.items():
+        out[k] = env[v.t.decl().name()] if isinstance(v, Sym) else v
+    return out
+
+
+def compare_real(name, mult, dim, conc, cutoff, iface):
+    """(differs?, detail) of *iface* against call_kernel(get_mesh) on the real code."""
+    cb = HELPER_CUTOFF if iface == "helper" else cutoff
+    res, err = {}, {}
+    for who, c in (("call_kernel", cb), (iface, cutoff)):
+        try:
+            res[who] = real_interfaces(name, mult, dim, conc, c, only={who})[who]
+        except Exception as e:
+            err[who] = "%s: %s" % (type(e).__name__, e)
+    if err:
+        return len(err) == 1 or err["call_kernel"] != err[iface], {"raised": err}
+    a, b = res["call_kernel"], res[iface]
+    differs = not C.close(a, b, rtol=1e-9)
+    return differs, {"call_kernel": a.tolist(), iface: b.tolist()}
+
+
+def _mesh_handler(u, cfg, info, direct, prefs, consts, H, iface, oracle, note):
+    _kind, name, dim, mult, disp, tag = cfg
+
+    def handler(m):
+        ifs = [iface] if iface else IFACES[1:]
+        last = None
+        # the cutoff is a free input: several generic values, then the solver's own model
+        for use_prefs, cval in ((True, None), (True, 1e-3), (True, 6e-3), (True, 0.2), (False, None)):
+            env = _concretise(m, H, prefs, consts, use_prefs)
+            if cval is not None:
+                if not any("cutoff" in symx.consts_of([h]) for h in H[len(H) - len([0]):]) and \
+                        all(bool(symx.evalf(h, dict(env, cutoff=cval))) for h in H
+                            if set(symx.consts_of([h])) == {"cutoff"}):
+                    env["cutoff"] = cval
+                else:
+                    continue
+            conc = _conc_pars(direct, env)
+            for who in ifs:
+                differs, detail = compare_real(name, mult, dim, conc, env["cutoff"], who)
+                last = (who, conc, env["cutoff"], detail)
+                if differs:
+                    cls = finding_class(info, dim, disp, who)
+                    return {"reproduced": True, "key": "C10/mesh/%s/%s" % (who, cls),
+                            "what": "%s %s: %s and call_kernel(get_mesh) disagree for the same settings "
+                                    "(cutoff %r): %s %s" % (name, dim, who, env["cutoff"], detail, note),
+                            "inputs": {"harness": "mesh", "model": name, "dim": dim, "mult": mult,
+                                       "pars": conc, "cutoff": env["cutoff"], "iface": who},
+                            "block": z3.BoolVal(True)}
+        who, conc, c, detail = last
+        return {"reproduced": False, "key": "C10/mesh/%s/%s" % (who, oracle),
+                "what": "%s %s: symbolic %s mismatch for %s (%s) but the real intensities agree: %s"
+                        % (name, dim, oracle, who, note, detail),
+                "inputs": {"harness": "mesh", "model": name, "dim": dim, "mult": mult, "pars": conc,
+                           "cutoff": c, "iface": who}, "block": None}
+    return handler
+
+
+def mesh_configs(models, quick):
+    out = []
+    for name in models:
+        info = core.load_model_info(name)
+        P = info.parameters
+        ctl = control_of(info)
+        mults = [None]
+        if ctl is not None:
+            top = len(ctl.choices) if ctl.choices else int(ctl.limits[1])
+            lo = 0 if ctl.choices else max(1, int(ctl.limits[0]))
+            mults = [min(2, top)] if quick else sorted(set([lo, min(3, top), top]))
+        for mult in mults:
+            vis = set(visible_names(info, mult)[0])
+            pd1 = [p.name for p in P.call_parameters if p.name in P.pd_1d and p.name in vis]
+            ori = [p.name for p in P.call_parameters if p.polydisperse and p.type == "orientation"]
+            dims = ["1d", "2d"] if (P.has_2d and (not quick or ori)) else ["1d"]
+            for dim in dims:
+                out.append(("mesh", name, dim, mult, (), "defaults"))
+                k = 0
+                groups = [pd1[i:i + 2] for i in range(0, len(pd1), 2)]
+                if quick:
+                    groups = groups[:1]
+                for g in groups:
+                    for n in ((5, 0) if quick else (5, 1, 0)):
+                        disp = tuple((nm, n, PD_TYPES[(k + j) % len(PD_TYPES)]) for j, nm in enumerate(g))
+                        k += 1 if quick else 2
+                        out.append(("mesh", name, dim, mult, disp, "pd:" + ",".join(
+                            "%s=%s/%d" % d for d in [(a, c, b) for a, b, c in disp])))
+                if ori:
+                    # with a second, size dispersity the cutoff trims the product weights
+                    disp = (((pd1[0], 5, "gaussian"),) if pd1 else ()) + ((ori[0], 5, "gaussian"),) + (
+                        ((ori[-1], 1, "uniform"),) if len(ori) > 1 and not quick else ())
+                    out.append(("mesh", name, dim, mult, disp, "orientation:" + ",".join(a for a, _b, _c in disp)))
+    return out
+
+
+# --------------------------------------------------------------------------
+# ARRAY: SasviewModel with an ArrayDispersion hands the user's arrays to the kernel
+
+def array_name(cfg):
+    _k, name, dim, mult, pname = cfg
+    return "array/%s/%s/m=%s/%s" % (name, dim, mult, pname)
+
+
+def run_array(info, mult, dim, direct, cut, model, pname, av, aw):
+    """(reference: make_kernel_args on get_mesh with the parameter's entry replaced
+    by the arrays, SasviewModel.set_dispersion(ArrayDispersion) + evalDistribution)"""
+    qv = Q1 if dim == "1d" else Q2
+    ctl = control_of(info)
+    k = model.make_kernel(qv)
+    mesh = DM.get_mesh(info, dict(direct), dim=k.dim)
+    idx = [p.name for p in info.parameters.call_parameters].index(pname)
+    mesh[idx] = (mesh[idx][0], av, aw)
+    cd, vals, mag = details.make_kernel_args(k, mesh)
+    ref = k(cd, vals, cut, mag)
+    m = model_class(info)(mult)
+    m._model = model
+    for key, v in direct.items():
+        if ctl is None or key != ctl.name:
+            m.setParam(sasview_name(key), v)
+    d = W.ArrayDispersion()
+    d.set_weights(av, aw)
+    m.set_dispersion(pname, d)
+    m.cutoff = cut
+    return ref, m.evalDistribution(qv[0] if dim == "1d" else [qv[0], qv[1]])
+
+
+def array_unit(cfg):
+    _k, name, dim, mult, pname = cfg
+    u = Unit(array_name(cfg), timeout_ms=60000)
+    u.functions("sasmodels.weights.ArrayDispersion.set_weights", "sasmodels.weights.Dispersion.get_pars",
+                "sasmodels.sasview_model.SasviewModel.set_dispersion", "sasmodels.sasview_model.SasviewModel._get_weights")
+    install()
+    info = core.load_model_info(name)
+    direct, prefs, A, _m0 = build_pars(info, mult, ())
+    cut = symx.real("cutoff")
+    n = 3
+    av, aw = symx.oarray(symx.reals("av", n)), symx.oarray(symx.reals("aw", n))
+    base = prefs["v." + pname]
+    for i in range(n):
+        prefs["av%d" % i], prefs["aw%d" % i] = base * (0.9 + 0.1 * i), 0.25 + 0.25 * i
+    prefs["cutoff"] = 0.03     # trims the tails of a 5-point gaussian
+    A = A + [cut.t >= 0] + I.INF_AXIOMS
+
+    def fn():
+        rec = []
+        model = C.stub_build(info, [0], rec)
+        return rec, run_array(info, mult, dim, direct, cut, model, pname, av, aw)
+
+    ex = symx.Explorer(timeout_ms=20000, max_paths=400)
+    paths = ex.explore(fn, A)
+    u.absorb(ex, paths)
+    u.reachable(u.r["unit"], A)
+    consts = dict((nm, z3.Real(nm)) for nm in prefs)
+
+    def handler(H):
+        def h(m):
+            env = _concretise(m, H, prefs, consts, True)
+            conc = _conc_pars(direct, env)
+            fa = np.array([env["av%d" % i] for i in range(n)])
+            fw = np.array([env["aw%d" % i] for i in range(n)])
+            uninstall()
+            try:
+                try:
+                    ref, out = run_array(core.load_model_info(name), mult, dim, conc, env["cutoff"],
+                                         C.real_model(name), pname, fa, fw)
+                    bad, detail = not C.close(ref, out, rtol=1e-9), {"explicit mesh": [float(x) for x in ref],
+                                                                      "sasview": [float(x) for x in out]}
+                except Exception as e:
+                    bad, detail = True, "raised %s: %s" % (type(e).__name__, e)
+            finally:
+                install()
+            return {"reproduced": bool(bad), "key": "C10/array/sasview/%s" % dim,
+                    "what": "%s %s: SasviewModel with ArrayDispersion on %s vs the same arrays in an explicit mesh: %s"
+                            % (name, dim, pname, detail),
+                    "inputs": {"harness": "array", "cfg": list(cfg), "pars": conc, "cutoff": env["cutoff"],
+                               "values": fa.tolist(), "weights": fw.tolist()}, "block": None}
+        return h
+
+    for p in paths:
+        if p.cut:
+            continue
+        H = p.constraints()
+        if p.exc is not None:
+            u.note("exception %r" % p.exc)
+            u.prove("no-exception", z3.BoolVal(False), H, handler(H))
+            continue
+        rec, (ref, out) = p.result
+        if len(rec) != 2:
+            u.error("expected 2 kernel calls, saw %d" % len(rec))
+            continue
+        va = C.kernel_view(info, rec[0].details, rec[0].values, True)
+        vb = C.kernel_view(info, rec[1].details, rec[1].values, True)
+        phi, bad = C.views_equal(vb, va)
+        same = z3.And(*[C._eq_terms(x, y) for x, y in zip(list(out), list(ref))]) if len(out) == len(ref) else z3.BoolVal(False)
+        u.prove("array-distribution-reaches-kernel", z3.And(phi, term(rec[1].cutoff) == cut.t, same,
+                                                           z3.BoolVal(bool(rec[0].magnetic) == bool(rec[1].magnetic))),
+                H, handler(H))
+    return u.r
+
+
+def array_configs(models, quick):
+    out = []
+    for name in models:
+        info = core.load_model_info(name)
+        P = info.parameters
+        ctl = control_of(info)
+        mult = None
+        if ctl is not None:
+            mult = min(2, len(ctl.choices) if ctl.choices else int(ctl.limits[1]))
+        vis = set(visible_names(info, mult)[0])
+        pd1 = [p.name for p in P.call_parameters if p.name in P.pd_1d and p.name in vis]
+        ori = [p.name for p in P.call_parameters if p.polydisperse and p.type == "orientation"]
+        if pd1:
+            out.append(("array", name, "1d", mult, pd1[0]))
+        if ori and not quick:
+            out.append(("array", name, "2d", mult, ori[0]))
+    return out
+
+
+# --------------------------------------------------------------------------
+# SELECT: which points get a theory value
+
+class QRecModel(C.StubModel):
+    """Stub model that also remembers the q vectors each kernel was made for."""
+
+    def __init__(self, info, leaf, rec):
+        C.StubModel.__init__(self, info, leaf, rec)
+        self.qlog = []
+
+    def make_kernel(self, q_vectors):
+        self.qlog.append(list(q_vectors))
+        return C.StubModel.make_kernel(self, q_vectors)
+
+
+def select_name(cfg):
+    _k, dtype, n, has_y, maskmode, res, limits, iface = cfg
+    return "select/%s/n=%d/%s/mask=%s/res=%s/limits=%s/%s" % (
+        dtype, n, "data" if has_y else "nodata", maskmode, res, limits, iface)
+
+
+def _seq_same(a, b):
+    a, b = list(a), list(b)
+    if len(a) != len(b):
+        return False
+    for x, y in zip(a, b):
+        if isinstance(x, I.YVal) or isinstance(y, I.YVal):
+            if x is not y:
+                return False
+        elif symx.is_sym(x) or symx.is_sym(y):
+            if not term(x).eq(term(y)):
+                return False
+        elif x != y:
+            return False
+    return True
+
+
+def build_data(cfg, S, concrete=None):
+    """Data object of configuration *cfg* from the symbol table *S* (or floats)."""
+    _k, dtype, n, has_y, maskmode, res, limits, _iface = cfg
+    g = (lambda k: symx.oarray(S[k])) if concrete is None else (lambda k: np.array(concrete[k]))
+    y = g("y") if has_y else None
+    dy = g("dy") if has_y else None
+    if dtype == "1d":
+        data = D.Data1D(x=g("x"), y=y, dx=g("dx") if res == "dx" else None, dy=dy)
+        if res == "slit":
+            data.dxl, data.dxw = g("dxl"), g("dxw")
+    else:
+        rs = res == "dq"
+        data = D.Data2D(x=g("x"), y=g("qy"), z=y, dx=g("dx") if rs else None,
+                        dy=g("dxl") if rs else None, dz=dy)
+    if maskmode == "symbolic":
+        data.mask = g("mask")
+    elif maskmode == "none":
+        data.mask = None
+    if limits == "symbolic":
+        src = S if concrete is None else concrete
+        data.qmin, data.qmax = src["qmin"], src["qmax"]
+    return data
+
+
+def select_spec_np(cfg, c):
+    """Documented selection on plain numpy arrays (independent of the library)."""
+    _k, dtype, n, has_y, maskmode, res, limits, _iface = cfg
+    x = np.array(c["x"], dtype=float)
+    q = x if dtype == "1d" else np.sqrt(x ** 2 + np.array(c["qy"], dtype=float) ** 2)
+    if limits == "symbolic":
+        lo, hi = c["qmin"], c["qmax"]
+    else:
+        lo, hi = (x.min(), x.max()) if dtype == "1d" else (1e-16, np.inf)
+    sel = (q >= lo) & (q <= hi)
+    nan = np.isnan(np.array(c["y"], dtype=float)) if has_y else np.zeros(n, dtype=bool)
+    if maskmode == "symbolic":
+        sel &= np.array(c["mask"]) == 0
+    elif maskmode == "default":
+        sel &= ~nan            # the constructors' own mask is isnan(y)
+    return sel & ~nan
+
+
+def real_select(cfg, c):
+    """The real _interpret_data on float arrays (resolution objects recorded)."""
+    iface = cfg[-1]
+    uninstall()
+    saved = (DM.resolution, DM.resolution2d, DM.np, D.np)
+    log = []
+    DM.np = D.np = np
+    if cfg[5] != "none":
+        DM.resolution, DM.resolution2d = I.resolution_namespaces(log, resolution, resolution2d)
+    try:
+        data = build_data(cfg, None, concrete=c)
+        model = C.real_model("sphere")
+        if iface == "bumps":
+            calc = BM.Experiment(data, BM.Model(model))
+            th = calc.theory()
+        else:
+            calc = DM.DirectModel(data, model)
+            th = calc()
+        return np.array(calc.index, dtype=bool), len(th)
+    finally:
+        DM.resolution, DM.resolution2d, DM.np, D.np = saved
+        install()
+
+
+def select_unit(cfg):
+    _k, dtype, n, has_y, maskmode, res, limits, iface = cfg
+    u = Unit(select_name(cfg), timeout_ms=60000)
+    u.functions("sasmodels.direct_model.DataMixin._interpret_data", "sasmodels.direct_model.DataMixin._calc_theory",
+                "sasmodels.direct_model.DirectModel.__init__/__call__", "sasmodels.bumps_model.Experiment.__init__/theory",
+                "sasmodels.data.Data1D.__init__", "sasmodels.data.Data2D.__init__",
+                "sasmodels.resolution.Perfect1D", "sasmodels.resolution2d.Pinhole2D (no-resolution branch)")
+    install()
+    info = core.load_model_info("sphere")
+    S = {"x": symx.reals("x", n), "qy": symx.reals("qy", n), "dy": symx.reals("dy", n),
+         "dx": symx.reals("dx", n), "dxl": symx.reals("dxl", n), "dxw": symx.reals("dxw", n),
+         "mask": [symx.integer("mask%d" % i) for i in range(n)],
+         "qmin": symx.real("qmin"), "qmax": symx.real("qmax")}
+    nan = [z3.Bool("nan%d" % i) for i in range(n)]
+    S["y"] = [I.YVal(symx.real("y%d" % i), nan[i]) for i in range(n)]
+    A = [z3.Real("L0.tw") != 0, z3.Real("L0.sv") != 0]
+    saved = (DM.resolution, DM.resolution2d, DM.np, D.np)
+
+    def fn():
+        log, rec = [], []
+        DM.np = D.np = I.DataNp()
+        if res != "none":
+            DM.resolution, DM.resolution2d = I.resolution_namespaces(log, resolution, resolution2d)
+        model = QRecModel(info, 0, rec)
+        data = build_data(cfg, S)
+        if iface == "bumps":
+            calc = BM.Experiment(data, BM.Model(model))
+            th = calc.theory()
+        else:
+            calc = DM.DirectModel(data, model)
+            th = calc()
+        return (np.array(calc.index, dtype=bool), calc.Iq, calc.dIq, calc.resolution, list(th),
+                model.qlog, log, data)
+
+    ex = symx.Explorer(timeout_ms=20000, max_paths=6000)
+    try:
+        paths = ex.explore(fn, A)
+    finally:
+        DM.resolution, DM.resolution2d, DM.np, D.np = saved
+    u.absorb(ex, paths)
+    u.reachable(u.r["unit"], A)
+    xs = [term(v) for v in S["x"]]
+    if dtype == "1d":
+        q = xs
+    else:
+        q = [term((S["x"][i] * S["x"][i] + S["qy"][i] * S["qy"][i]).sqrt()) for i in range(n)]
+    spec = []
+    for i in range(n):
+        c = []
+        if limits == "symbolic":
+            c += [q[i] >= S["qmin"].t, q[i] <= S["qmax"].t]
+        elif dtype == "2d":
+            c += [q[i] >= symx.rat(1e-16)]
+        if maskmode == "symbolic":
+            c.append(S["mask"][i].t == 0)
+        if has_y:
+            c.append(z3.Not(nan[i]))
+        spec.append(z3.And(*c) if c else z3.BoolVal(True))
+    u.sample({"config": u.r["unit"], "documented_selection": [str(s) for s in spec]})
+    names = dict((k, S[k]) for k in ("x", "qy", "dy", "dx", "dxl", "dxw", "mask"))
+
+    def handler(oracle):
+        def h(m):
+            c = dict((k, [symx.model_float(m, v.t) for v in vs]) for k, vs in names.items())
+            flags = [bool(symx.model_float(m, f)) for f in nan]
+            c["y"] = [float("nan") if flags[i] else float(symx.model_float(m, S["y"][i].v.t)) for i in range(n)]
+            c["qmin"], c["qmax"] = (float(symx.model_float(m, S[k].t)) for k in ("qmin", "qmax"))
+            c["mask"] = [int(v) for v in c["mask"]]
+            try:
+                got, nth = real_select(cfg, c)
+                want = select_spec_np(cfg, c)
+                bad = (got.tolist() != want.tolist()) or nth != int(want.sum())
+                detail = "index %s, %d theory values; documented %s" % (got.astype(int).tolist(), nth, want.astype(int).tolist())
+            except Exception as e:
+                bad, detail = True, "raised %s: %s" % (type(e).__name__, e)
+            return {"reproduced": bool(bad), "key": "C10/select/%s/%s/%s" % (dtype, iface, oracle),
+                    "what": "%s: %s (inputs %s)" % (u.r["unit"], detail, c),
+                    "inputs": {"harness": "select", "cfg": list(cfg), "data": c}, "block": None}
+        return h
+
+    for pi, p in enumerate(paths):
+        if p.cut:
+            continue
+        H = p.constraints()
+        if p.exc is not None:
+            u.note("exception %r" % p.exc)
+            u.prove("no-exception", z3.BoolVal(False), H, handler("exception"))
+            continue
+        idx, Iq, dIq, resn, th, qlog, log, data = p.result
+        u.prove("index-is-documented-selection",
+                z3.And(*[spec[i] == z3.BoolVal(bool(idx[i])) for i in range(n)]), H,
+                handler("index"), sample=(pi == 0))
+        sel = [i for i in range(n) if idx[i]]
+        ok = len(qlog) == 1 and len(th) == len(sel)
+        ok = ok and _seq_same(qlog[0][0], [S["x"][i] for i in sel])
+        if dtype == "2d":
+            ok = ok and _seq_same(qlog[0][1], [S["qy"][i] for i in sel])
+        if has_y:
+            ok = ok and _seq_same(Iq, [S["y"][i] for i in sel]) and _seq_same(dIq, [S["dy"][i] for i in sel])
+        else:
+            ok = ok and Iq is None
+        if res == "dx":
+            r = log[-1] if log else None
+            ok = ok and ((r is None and isinstance(resn, resolution.Perfect1D)) or (
+                r is not None and r.kind == "Pinhole1D" and _seq_same(r.args[0], [S["x"][i] for i in sel])
+                and _seq_same(r.args[1], [S["dx"][i] for i in sel])))
+        elif res == "slit":
+            r = log[-1] if log else None
+            ok = ok and r is not None and r.kind == "Slit1D" and _seq_same(r.args[0], [S["x"][i] for i in sel]) \
+                and _seq_same(r.kw["q_length"], [S["dxl"][i] for i in sel]) \
+                and _seq_same(r.kw["q_width"], [S["dxw"][i] for i in sel])
+        elif res == "dq":
+            r = log[-1] if log else None
+            ok = ok and r is not None and r.kind == "Pinhole2D" and r.kw["data"] is data \
+                and np.array_equal(np.array(r.kw["index"], dtype=bool), idx)
+        u.prove("selected-points-in-order-to-resolution-and-kernel", z3.BoolVal(bool(ok)), H, handler("order"))
+    return u.r
+
+
+def select_configs(quick):
+    out = []
+    n = 2
+    for iface in ("DirectModel", "bumps"):
+        for dtype in ("1d", "2d"):
+            for has_y in (True, False):
+                for maskmode in (("symbolic", "default") if dtype == "2d" else ("symbolic", "default", "none")):
+                    ress = ("none", "dx", "slit") if dtype == "1d" else ("none", "dq")
+                    for res in ress:
+                        for limits in ("symbolic", "default"):
+                            full = (maskmode == "symbolic" and limits == "symbolic")
+                            if quick and not full and not (res == "none" and iface == "DirectModel"):
+                                continue
+                            if iface == "bumps" and res != "none" and quick:
+                                continue
+                            out.append(("select", dtype, n, has_y, maskmode, res, limits, iface))
+    if not quick:
+        out.append(("select", "1d", 3, False, "symbolic", "none", "symbolic", "DirectModel"))
+        out.append(("select", "2d", 3, False, "symbolic", "none", "symbolic", "DirectModel"))
+        out.append(("select", "1d", 3, True, "default", "none", "symbolic", "DirectModel"))
+    return out
+
+
+# --------------------------------------------------------------------------
+# REFUSE: a name the model does not define is an error in every interface
+
+PD_US = ["_pd", "_pd_n", "_pd_nsigma", "_pd_type"]
+PD_DOT = [".width", ".npts", ".nsigmas", ".type"]
+KW_TARGETS = lambda: [(DM, "Iq"), (DM, "Iqxy"), (DM.DirectModel, "__call__"),
+                      (BM, "create_parameters"), (BM.Model, "__init__")]
+REFUSE_IFACES = ["get_mesh", "call_kernel", "call_Fq", "DirectModel", "Iq", "Iqxy",
+                 "bumps.create_parameters", "bumps.Model", "setParam/1", "setParam/2", "setParam/3",
+                 "set_dispersion"]
+HELPER_ARGS = {"Iq": ["model", "q", "dq", "ql", "qw"], "Iqxy": ["model", "qx", "qy", "dqx", "dqy"],
+               "bumps.create_parameters": ["model_info"], "bumps.Model": ["self", "model"],
+               "DirectModel": ["self"], "call_Fq": ["radius_effective_mode"]}
+
+
+def documented_names(info, scheme, mult=None):
+    """Names the model defines, derived from ModelInfo alone.  scheme 'direct':
+    parameter ids (magnetic ones included for magnetic models) plus _pd, _pd_n,
+    _pd_nsigma, _pd_type on polydisperse parameters.  'sasview': the parameters
+    visible at this multiplicity plus .width/.npts/.nsigmas/.type on the
+    polydisperse ones.  'dispersion': the visible polydisperse parameters."""
+    P = info.parameters
+    if scheme == "direct":
+        out = []
+        for p in P.call_parameters:
+            out.append(p.name)
+            if p.polydisperse:
+                out += [p.name + s for s in PD_US]
+        return out
+    hidden = set()
+    ctl = control_of(info)
+    if mult is not None:
+        hidden |= set(info.get_hidden_parameters(mult))
+        if ctl is not None:
+            hidden.add(ctl.name)
+    if info.structure_factor:
+        hidden |= {"scale", "background"}
+    vis = [p for p in P.call_parameters if p.name not in hidden]
+    if scheme == "dispersion":
+        return [p.name for p in vis if p.polydisperse]
+    out = []
+    for p in vis:
+        out.append(p.name)
+        if p.polydisperse:
+            out += [p.name + s for s in PD_DOT]
+    return out
+
+
+def classify_key(info, key):
+    callp = dict((p.name, p) for p in info.parameters.call_parameters)
+    if key in callp:
+        return "parameter-without-dispersity" if not callp[key].polydisperse else "parameter"
+    for s in PD_US + PD_DOT:
+        if key.endswith(s) and key[:-len(s)] in callp and not callp[key[:-len(s)]].polydisperse:
+            return "dispersity-suffix-on-non-dispersible-parameter"
+    return "unknown-name"
+
+
+def _valid_entries(info, mult):
+    """A realistic concrete call: one value and one dispersity setting."""
+    vis = documented_names(info, "sasview", mult)
+    P = info.parameters
+    out = {}
+    for p in P.call_parameters:
+        if p.name in vis and not C.is_structural(p) and p.name not in ("scale", "background"):
+            out[p.name] = float(p.default) if np.isfinite(p.default) else 1.0
+            break
+    for p in P.call_parameters:
+        if p.name in vis and p.polydisperse and p.name in P.pd_1d:
+            out[p.name + "_pd"], out[p.name + "_pd_n"] = 0.1, 3
+            break
+    ctl = control_of(info)
+    if ctl is not None and mult is not None:
+        out[ctl.name] = float(mult)
+    return out
+
+
+def call_refuse(iface, info, mult, model, valid, key, value, symbolic):
+    """One interface call with the extra entry *key*: *value*.  Symbolic mode:
+    *key* is a SymKey inside a SymKeyDict; replay: a plain string in a dict."""
+    mk = (lambda d: I.SymKeyDict(d, key, value)) if symbolic else (lambda d: dict(d, **{key: value}))
+    q = Q1[0]
+    if iface == "get_mesh":
+        return DM.get_mesh(info, mk(valid))
+    if iface == "call_kernel":
+        return DM.call_kernel(model.make_kernel(Q1), mk(valid))
+    if iface == "call_Fq":
+        return DM.call_Fq(model.make_kernel(Q1), mk(valid))
+    if iface == "DirectModel":
+        return DM.DirectModel(D.Data1D(x=q), model)(**mk(valid))
+    if iface in ("Iq", "Iqxy"):
+        saved = core.build_model
+        if symbolic:
+            core.build_model = lambda mi, *a, **kw: model
+        try:
+            if iface == "Iq":
+                return DM.Iq(info.id, q, **mk(valid))
+            return DM.Iqxy(info.id, Q2[0], Q2[1], **mk(valid))
+        finally:
+            core.build_model = saved
+    if iface == "bumps.create_parameters":
+        return BM.create_parameters(info, **mk(valid))
+    if iface == "bumps.Model":
+        return BM.Model(model, **mk(valid))
+    m = model_class(info)(mult)
+    if symbolic:
+        m.params = I.SymAwareDict(m.params)
+        m.dispersion = I.SymAwareDict(m.dispersion)
+    if iface == "set_dispersion":
+        return m.set_dispersion(key, W.GaussianDispersion(5, 0.1, 3))
+    return m.setParam(key, value)
+
+
+def refuse_name(cfg):
+    _k, name, mult = cfg
+    return "refuse/%s/m=%s" % (name, mult)
+
+
+# plain-dict conversions of the proxy (hash events of the SymKey) per interface on
+# the unchanged tree: f(**proxy) at the harness call and at every ** call site inside
+EXPECTED_HASHES = {"get_mesh": 0, "call_kernel": 0, "call_Fq": 0, "DirectModel": 4, "Iq": 8, "Iqxy": 8,
+                   "bumps.create_parameters": 4, "bumps.Model": 8, "setParam/1": 0, "setParam/2": 0,
+                   "setParam/3": 0, "set_dispersion": None}
+
+
+def _symbolic_key(iface, doc):
+    """(SymKey, z3 term of the whole name, assumptions)"""
+    if iface.startswith("setParam/"):
+        n = int(iface[-1])
+        parts = [z3.String("K%d" % i) for i in range(n)]
+        whole = parts[0]
+        for p in parts[1:]:
+            whole = z3.Concat(whole, z3.StringVal("."), p)
+        A = [z3.Not(z3.Contains(p, z3.StringVal("."))) for p in parts]
+        key = I.SymKey(whole, excluded=doc)
+        key.parts = [I.SymKey(p, label="<part %d>" % i) for i, p in enumerate(parts)]
+        if n == 1:
+            key.parts = [key]
+    else:
+        whole = z3.String("K")
+        A = []
+        key = I.SymKey(whole, excluded=doc)
+    A += [whole != z3.StringVal(d) for d in doc]
+    return key, whole, A
+
+
+def refuse_unit(cfg):
+    _k, name, mult = cfg
+    u = Unit(refuse_name(cfg), timeout_ms=60000)
+    u.functions("sasmodels.direct_model.get_mesh", "sasmodels.direct_model._pop_par_weights",
+                "sasmodels.direct_model.call_kernel", "sasmodels.direct_model.call_Fq",
+                "sasmodels.direct_model.DirectModel.__call__", "sasmodels.direct_model.DataMixin._calc_theory",
+                "sasmodels.direct_model.Iq", "sasmodels.direct_model.Iqxy", "sasmodels.direct_model._direct_calculate",
+                "sasmodels.bumps_model.create_parameters", "sasmodels.bumps_model.Model.__init__",
+                "sasmodels.sasview_model.SasviewModel.setParam", "sasmodels.sasview_model.SasviewModel.set_dispersion")
+    install()
+    info = core.load_model_info(name)
+    valid = _valid_entries(info, mult)
+    value = symx.real("value")
+    undo = I.install_kw_wrappers(KW_TARGETS())
+    try:
+        for iface in REFUSE_IFACES:
+            if iface.startswith("set") and control_of(info) is None and mult is not None:
+                continue
+            scheme = "dispersion" if iface == "set_dispersion" else "sasview" if iface.startswith("setParam") else "direct"
+            doc = documented_names(info, scheme, mult) + HELPER_ARGS.get(iface, [])
+            key, whole, A = _symbolic_key(iface, doc)
+            A = A + [z3.Real("L0.tw") != 0, z3.Real("L0.sv") != 0]
+
+            def fn(iface=iface, key=key):
+                rec = []
+                model = C.stub_build(info, [0], rec)
+                I.SymKey.hashes = 0
+                call_refuse(iface, info, mult, model, valid, key, value, True)
+                return I.SymKey.hashes
+
+            ex = symx.Explorer(timeout_ms=20000, max_paths=400)
+            paths = ex.explore(fn, A)
+            u.absorb(ex, paths)
+            u.reachable("%s[%s]" % (u.r["unit"], iface), A)
+            if iface == "get_mesh":
+                u.sample({"unit": u.r["unit"], "documented_names": doc[:40], "query":
+                          "exists K not in documented_names: call returns normally  (must be unsat)"})
+            for p in paths:
+                if p.cut:
+                    u.error("%s: path cut (%s)" % (iface, p.cut))
+                    continue
+                H = p.constraints()
+                if p.exc is not None:
+                    if not isinstance(p.exc, (TypeError, ValueError)) or "symbolic" in str(p.exc) \
+                            and "<symbolic key>" not in str(p.exc):
+                        u.error("%s: unexpected %r" % (iface, p.exc))
+                    elif EXPECTED_HASHES[iface] is not None and I.SymKey.hashes != EXPECTED_HASHES[iface]:
+                        u.error("%s: the symbolic key was hashed %d times, expected %d: the code converts the "
+                                "parameter dict somewhere the harness does not re-wrap"
+                                % (iface, I.SymKey.hashes, EXPECTED_HASHES[iface]))
+                    else:
+                        # refused on this path: the obligation 'no normal return' holds trivially
+                        u.r["obligations"] += 1
+                        u.r["discharged"] += 1
+                    continue
+                u.prove("refused[%s]" % iface, z3.BoolVal(False), H,
+                        _refuse_handler(u, cfg, info, iface, whole, valid))
+    finally:
+        I.undo_kw_wrappers(undo)
+    return u.r
+
+
+def _refuse_handler(u, cfg, info, iface, whole, valid):
+    _k, name, mult = cfg
+
+    def handler(m):
+        key = m.eval(whole, model_completion=True).as_string()
+        accepted, detail = real_refuse(name, mult, iface, valid, key)
+        return {"reproduced": accepted, "key": "C10/refuse/%s/%s" % (iface.split("/")[0], classify_key(info, key)),
+                "what": "%s: %s accepts the undefined name %r without an error (%s)" % (name, iface, key, detail),
+                "inputs": {"harness": "refuse", "model": name, "mult": mult, "iface": iface, "key": key,
+                           "valid": valid}, "block": whole == z3.StringVal(key)}
+    return handler
+
+
+def real_refuse(name, mult, iface, valid, key):
+    """Replay: the real interface with a plain string key; accepted = no error."""
+    uninstall()
+    try:
+        info = core.load_model_info(name)
+        model = C.real_model(name)
+        try:
+            call_refuse(iface, info, mult, model, valid, key, 1.25, False)
+        except (TypeError, ValueError) as e:
+            return False, "raised %s: %s" % (type(e).__name__, e)
+        return True, "returned normally"
+    finally:
+        install()
+
+
+def refuse_configs(models, quick):
+    out = []
+    for name in models:
+        info = core.load_model_info(name)
+        ctl = control_of(info)
+        mult = None
+        if ctl is not None:
+            top = len(ctl.choices) if ctl.choices else int(ctl.limits[1])
+            mult = min(2, top)
+        out.append(("refuse", name, mult))
+    return out
+
+
+# --------------------------------------------------------------------------
+# driver
+
+def unit(cfg):
+    return {"mesh": mesh_unit, "select": select_unit, "refuse": refuse_unit, "array": array_unit}[cfg[0]](cfg)
+
+
+def unit_name(cfg):
+    return {"mesh": mesh_name, "select": select_name, "refuse": refuse_name, "array": array_name}[cfg[0]](cfg)
+
+
+def replay(cex):
+    i = cex["inputs"]
+    install()
+    if i["harness"] == "mesh":
+        differs, detail = compare_real(i["model"], i["mult"], i["dim"], i["pars"], i["cutoff"], i["iface"])
+        print("real %s vs call_kernel on %s %s %s cutoff=%r -> %s" % (
+            i["iface"], i["model"], i["dim"], i["pars"], i["cutoff"], detail))
+        return 1 if differs else 0
+    if i["harness"] == "select":
+        cfg = tuple(i["cfg"])
+        got, nth = real_select(cfg, i["data"])
+        want = select_spec_np(cfg, i["data"])
+        print("real index", got.astype(int).tolist(), "theory values", nth, "documented", want.astype(int).tolist())
+        return 1 if (got.tolist() != want.tolist() or nth != int(want.sum())) else 0
+    if i["harness"] == "array":
+        _k, name, dim, mult, pname = i["cfg"]
+        uninstall()
+        ref, out = run_array(core.load_model_info(name), mult, dim, i["pars"], i["cutoff"], C.real_model(name),
+                             pname, np.array(i["values"]), np.array(i["weights"]))
+        print("explicit mesh", list(ref), "SasviewModel with ArrayDispersion", list(out))
+        return 0 if C.close(ref, out, rtol=1e-9) else 1
+    accepted, detail = real_refuse(i["model"], i["mult"], i["iface"], i["valid"], i["key"])
+    print("real %s on %s with extra name %r: %s" % (i["iface"], i["model"], i["key"], detail))
+    return 1 if accepted else 0
+
+
+def configs(chk):
+    models = core.list_models()      # QUICK_MODELS is the fall-back subset if the budget shrinks
+    if os.environ.get("C10_SUBSET"):
+        models = QUICK_MODELS
+    cfgs = (refuse_configs(models, chk.quick) + select_configs(chk.quick) + array_configs(models, chk.quick)
+            + mesh_configs(models, chk.quick))
+    return cfgs
+
+
+def run(chk):
+    chk.explanation = (
+        "Symbolic execution (vlib.symx, z3 proxies on numpy object arrays) of the REAL calling interfaces. "
+        "MESH: per model / dimension / multiplicity / dispersity setting one symbolic parameter set (every "
+        "visible parameter value, the widths, nsigmas and the cutoff are symbolic reals; npts and distribution "
+        "type enumerated) is written in each interface's naming scheme and pushed through call_kernel(get_mesh), "
+        "DirectModel.__call__, Iq/Iqxy, SasviewModel.setParam+evalDistribution and bumps Model+Experiment.theory "
+        "with a recording stub kernel; z3 proves on every path that the kernel receives identical call details, "
+        "value vector (scale/background routing included), cutoff and magnetic flag and that the returned "
+        "theory terms are identical.  SELECT: DataMixin._interpret_data/_calc_theory on Data1D/Data2D objects "
+        "with symbolic q, mask, qmin/qmax and NaN flags; z3 proves index == (mask==0 and qmin<=q<=qmax and not "
+        "isnan(y)) and the selected points reach resolution and kernel in order.  REFUSE: one extra entry "
+        "under a symbolic string key (z3 String) outside the names derived from ModelInfo; a path that returns "
+        "normally is a counterexample.  Every counterexample is replayed on the real compiled kernels / real "
+        "interfaces with floats and strings.")
+    chk.bounds = {"models": "all %d builtin models (core.list_models())" % len(core.list_models()),
+                  "multiplicity": "2" if chk.quick else "lowest, 3, highest",
+                  "dispersed parameters per unit": "<= 2 (+ 1 orientation), npts in %s, types cycled over %s; %s"
+                                                   % ("{5,0}" if chk.quick else "{5,1,0}", PD_TYPES,
+                                                      "first pair of size parameters" if chk.quick else "every size parameter"),
+                  "symbolic magnetic amplitudes": "first sld only (others at their default 0)",
+                  "q points": "2 (3 in some thorough selection units)",
+                  "symbolic key": "one extra entry; setParam names with 0, 1 or 2 dots",
+                  "solver timeout": "60 s per obligation, 20 s per fork"}
+    chk.outside = [
+        "parameter values outside the hard limits of a polydisperse parameter (get_mesh evaluates at the value, "
+        "SasviewModel gets an empty distribution): excluded by assumption",
+        "defaults that differ between schemes when a setting is left out (name_pd_n defaults to 0 in get_mesh, 35 "
+        "in SasviewModel and bumps): every compared setting is given explicitly",
+        "choice/control parameters other than the multiplicity are left at their defaults",
+        "SESANS data (Gxi) and oriented 1-D slit data (data.oriented: raises TypeError, known finding of C03)",
+        "resolution smearing itself (C03/C04): resolution objects with non-zero width are recording stubs",
+        "what the compiled kernel does with its arguments (C01), the distribution formulas (C02)",
+        "_set_data/simulate_data (random noise), getParam, ArrayDispersion in the 2-D quick tier",
+        "rounding: doubles are reals"]
+    chk.stubs = STUBS + [I.KEY_STUB,
+                         "direct_model.resolution / resolution2d -> recording Pinhole1D/Slit1D/Pinhole2D in the "
+                         "selection units that have resolution columns; real Perfect1D / Pinhole2D otherwise",
+                         "NaN data: vlib.ifaces.YVal (value, symbolic NaN flag)"]
+    chk.assumptions = ["centre of every polydisperse parameter inside its hard limits; width >= 0, nsigmas > 0, cutoff >= 0",
+                       "1-D orientation-dispersity units: the size distribution is non-degenerate (width, centre > 0)",
+                       "raw kernel outputs L0.tw, L0.sv non-zero in the selection and refusal units",
+                       "the extra key differs from every documented name and from the helper's own keyword names",
+                       "+inf > 1e300, -inf < -1e300 for the constants standing for infinite limits"]
+    cfgs = configs(chk)
+    if getattr(chk, "only", None):
+        cfgs = [c for c in cfgs if chk.only in unit_name(c)]
+    chk.add(pmap(unit, cfgs))
